@@ -362,6 +362,29 @@ theorem C19_build_stuck_iff (eps : List Ep) (rf : Nat) (hh : ∀ e ∈ eps, e.ha
         · obtain ⟨secs, h⟩ := h; rw [hst] at h; cases h
         · obtain ⟨_, h⟩ := h; cases h
 
+/-- **F19, exact extent.**  The loop as it was never answers — for any amount of fuel — exactly
+    on the zone layouts that cannot be balanced for the replication factor; everywhere else it
+    terminates (`C19_unrepaired_partial`).  Hash values and the start section play no role. -/
+theorem C19_unrepaired_hangs_iff (ring : List Sec) (zones : List Nat) (rf : Nat) (start : List Sec)
+    (hne : ring ≠ []) (hstart : ∃ pre, ring = pre ++ start) (hcons : AzConsistent ring)
+    (hn : zones.Nodup) (hcover : ∀ s ∈ ring, s.az ∈ zones) (hb : rf < 2 ^ 63 - 1) :
+    (∀ fuel, loop false ring ring.length zones rf fuel start 0 [] = .fuelOut) ↔
+      canBalance (zones.map (zsize ring)) rf = false := by
+  have hiff := C19_stuck_iff ring zones rf start hne hstart hcons hn hcover hb
+  have hsub : ∀ s ∈ start, s ∈ ring := by
+    obtain ⟨pre, hp⟩ := hstart
+    intro s hs; rw [hp]; simp [hs]
+  constructor
+  · intro hall
+    cases hc : canBalance (zones.map (zsize ring)) rf with
+    | false => rfl
+    | true =>
+      obtain ⟨fuel, reps, hr⟩ := C19_unrepaired_partial ring zones rf start hne hstart hcons hn hcover hb hc
+      rw [hall fuel] at hr; cases hr
+  · intro hc fuel
+    have hst := hiff.1.mpr hc
+    exact unrepaired_hangs_of_stuck ring zones rf hne _ start 0 [] hsub (window_zero hstart) (by omega) hst fuel 0
+
 -- non-vacuity of C19_stuck_iff / C19_build_stuck_iff: the F19 ring meets every hypothesis, and the
 -- two sides of the equivalence are the interesting ones on it
 example : AzConsistent f19Ring := by unfold AzConsistent; decide
